@@ -1,6 +1,7 @@
 package simkit
 
 import (
+	"fmt"
 	"regexp"
 	"runtime"
 	"strings"
@@ -47,6 +48,28 @@ func DumpGoroutines() []Goroutine {
 			}
 		}
 		out = append(out, g)
+	}
+	return out
+}
+
+// DumpBubble returns the goroutines of the calling goroutine's synctest
+// bubble only. Goroutines that an earlier run of the same process left
+// behind (a run that ended in a violation with goroutines blocked for good)
+// belong to another bubble and are not this run's business.
+func DumpBubble() []Goroutine {
+	all := DumpGoroutines()
+	me := fmt.Sprint(CurGID())
+	cur := ""
+	for _, g := range all {
+		if g.ID == me {
+			cur = g.Bubble
+		}
+	}
+	var out []Goroutine
+	for _, g := range all {
+		if g.Bubble != "" && g.Bubble == cur {
+			out = append(out, g)
+		}
 	}
 	return out
 }
